@@ -1,5 +1,8 @@
 use crate::engine::RunCtx;
 
+pub mod c04;
+pub mod c05;
+pub mod c06;
 pub mod c27;
 
 pub struct Entry {
@@ -9,6 +12,9 @@ pub struct Entry {
 }
 
 pub const REGISTRY: &[Entry] = &[
+    Entry { id: "C04", level: "exploration", run: c04::run },
+    Entry { id: "C05", level: "exploration", run: c05::run },
+    Entry { id: "C06", level: "exploration", run: c06::run },
     Entry { id: "C27", level: "exploration", run: c27::run },
 ];
 
